@@ -52,7 +52,7 @@ ASSUMPTIONS = [
 ]
 
 MiB = 2 ** 20
-CASE_TIMEOUT_S = 40      # a normal case takes well under 2 s
+CASE_TIMEOUT_S = {"quick": 40, "thorough": 150}      # a normal case takes well under 2 s (2 MiB blobs in fine fragments: a few s)
 MAX_CASE_TIMEOUTS = 4
 ADDR = 'bQEaw42GXsgCAGio1nxFncJSyRmnztSCjP'
 CONNECT_T, DOWNLOAD_T = 2.0, 3.0
@@ -1366,7 +1366,7 @@ PARTS = [
     Part("splitter", splitter_strategy, run_splitter, 1500, 20000, quick_shards=3, thorough_shards=16,
          essential=("first_cut:at_header_end", "first_cut:inside_header", "first_cut:inside_body", "body_has_brace", "unknown_length")),
     Part("atheris", None, run_fuzz_campaign, 0, 0, quick_shards=2, thorough_shards=16, enumerate_cases=fuzz_campaigns,
-         essential=("fuzz-campaign",)),
+         essential=("fuzz-campaign",), case_timeout=3400),
     Part("server", server_strategy, lambda c: _run(server_async, c), 300, 1500, quick_shards=4, thorough_shards=16,
          essential=tuple("req:" + k for k in sorted(set(REQ_KINDS)))),
     Part("client", client_strategy, lambda c: _run(client_async, c), 300, 1500, quick_shards=6, thorough_shards=16,
